@@ -99,7 +99,7 @@ static int line_to_instr(struct instr *instr_data, char *filtered_asm_str) {
         (instr_data->cons <= MAX_SIGNED_8BIT && !instr_data->keyword.is_long))
       instr_data->keyword.is_short = true;
     else if (instr_data->cons > MAX_SIGNED_8BIT &&
-             instr_data->keyword.is_short) {
+             instr_data->cons < NEG80BIT && instr_data->keyword.is_short) {
       fprintf(stderr, "cannot set a long jump to short\n");
       return EXIT_FAILURE;
     }
